@@ -751,7 +751,7 @@ def corpus(ctx, n_irgen, n_c):
     for key, src, fn, ptys in C_SOURCES:
         for lvl in (None, "2"):
             try:
-                with contextlib.redirect_stdout(io.StringIO()):     # front-end warnings are not our output
+                with contextlib.redirect_stdout(io.StringIO()), contextlib.redirect_stderr(io.StringIO()):  # front-end warnings
                     m = optcorpus.compile_c(src, "x86_64")
                 if lvl:
                     api.optimize(m, level=lvl)
@@ -780,7 +780,7 @@ def corpus(ctx, n_irgen, n_c):
         ext = optcorpus.ext_stubs(prog, prng)
         for lvl in (None, "2"):
             try:
-                with contextlib.redirect_stdout(io.StringIO()):     # front-end warnings are not our output
+                with contextlib.redirect_stdout(io.StringIO()), contextlib.redirect_stderr(io.StringIO()):  # front-end warnings
                     m = optcorpus.compile_c(src, "x86_64")
                 if lvl:
                     api.optimize(m, level=lvl)
